@@ -131,10 +131,16 @@ LookupFns == {"Objects", "Subjects", "PredicatesForSubject", "PredicatesForObjec
               "TriplesForSubject", "TriplesForPredicate", "TriplesForObject", "TriplesForSubjectAndPredicate",
               "TriplesForPredicateAndObject", "Triples"}
 
-\* ConcStore.DevSharedOptionsCell: the only memory two LOOKUPS of storage/memory both write is the caller's options value
+FilterFns == {"executeFilter", "latestFilter", "isImmutableFilter", "isTemporalFilter"}
+
+\* ConcStore.DevSharedOptionsCell: the only memory two LOOKUPS of storage/memory both touch and one of them writes is
+\* the caller's options value: a race between two statements on lo.FilterOptions, or between such a statement and a
+\* filter helper reading the filter options reached through it
 BadClass ==
     CASE e.ev = "Race" ->
-            IF e.f1 \in LookupFns /\ e.f2 \in LookupFns /\ e.pk1 = "storage/memory" /\ e.pk2 = "storage/memory" /\ e.shared
+            IF /\ e.pk1 = "storage/memory" /\ e.pk2 = "storage/memory"
+               /\ e.f1 \in LookupFns \cup FilterFns /\ e.f2 \in LookupFns \cup FilterFns
+               /\ e.s1 # "" /\ e.s2 # "" /\ "lo.FilterOptions" \in {e.s1, e.s2}
             THEN "shared-lookupoptions-race" ELSE "unexplained"
       [] e.ev = "OptionsChanged" -> IF e.q.la THEN "lookupoptions-modified-during-latestanchor-lookup" ELSE "unexplained"
       [] e.ev = "Panic" -> IF e.shared /\ e.f1 \in {"latestFilter", "executeFilter"} /\ e.pk1 = "storage/memory"
